@@ -131,6 +131,7 @@ type FuncContract struct {
 	Line     int
 	File     string
 	Panics   []*Clause // panics_if: conditions under which explicit panic is the documented behaviour
+	ModAll   bool     // "modifies anything"
 	Opaque   []string // callee names to treat as havoc (explicitly abstracted), listed in evidence
 	Ghost    map[string]string
 	Pure     bool // function has no side effects (modifies nothing)
@@ -813,8 +814,14 @@ func parseContractLines(pkg, file string, lines []rawLine) (*ContractFile, error
 				}
 				callee := strings.TrimSpace(rest[:j])
 				body := strings.TrimSpace(rest[j+1:])
+				ckind := "assert"
+				if strings.HasPrefix(body, "assume ") {
+					// an explicit, unchecked assumption about the state after the call (listed in the evidence)
+					ckind = "assume"
+					body = "assert " + strings.TrimPrefix(body, "assume ")
+				}
 				if !strings.HasPrefix(body, "assert ") {
-					return nil, perr(l, fmt.Errorf("after <callee>: only assert is supported"))
+					return nil, perr(l, fmt.Errorf("after <callee>: assert <expr> | assume <expr>"))
 				}
 				body = strings.TrimSpace(strings.TrimPrefix(body, "assert "))
 				e, err := parseSpecExpr(body)
@@ -824,7 +831,7 @@ func parseContractLines(pkg, file string, lines []rawLine) (*ContractFile, error
 				if cur.After == nil {
 					cur.After = map[string][]*Clause{}
 				}
-				cur.After[callee] = append(cur.After[callee], &Clause{Kind: "assert", Expr: e, Text: body, Line: l.line})
+				cur.After[callee] = append(cur.After[callee], &Clause{Kind: ckind, Expr: e, Text: body, Line: l.line})
 				continue
 			}
 			switch kind {
@@ -852,7 +859,10 @@ func parseContractLines(pkg, file string, lines []rawLine) (*ContractFile, error
 				}
 			case "modifies":
 				cur.HasMod = true
-				if strings.TrimSpace(rest) != "nothing" {
+				if strings.TrimSpace(rest) == "anything" {
+					// user callbacks and the like: any memory may change (callers must say the same)
+					cur.ModAll = true
+				} else if strings.TrimSpace(rest) != "nothing" {
 					for _, part := range splitTop(rest) {
 						e, err := parseSpecExpr(part)
 						if err != nil {
